@@ -3,6 +3,7 @@ mod db;
 mod lexrun;
 mod render;
 mod run;
+mod target;
 mod value;
 
 fn main() {
@@ -15,6 +16,7 @@ fn main() {
     let code = match args[0].as_str() {
         "run" => run::main(&args[1..]),
         "lexrun" => lexrun::main(&args[1..]),
+        "target" => target::main(&args[1..]),
         "lexlist" => lexrun::main_list(&args[1..]),
         "render" => {
             // stdin: one program per line -> PRQL text
